@@ -26,7 +26,7 @@ fn main() {
     if std::env::var("VERIF_BACKTRACE").is_err() {
         std::panic::set_hook(Box::new(|info| {
             let msg = info.payload().downcast_ref::<&str>().map(|s| s.to_string()).or_else(|| info.payload().downcast_ref::<String>().cloned()).unwrap_or_default();
-            if !msg.starts_with("verif: injected panic") {
+            if !msg.starts_with("verif: injected panic") && !msg.contains("PoisonError") {
                 eprintln!("panic: {} at {}", msg, info.location().map(|l| format!("{}:{}", l.file(), l.line())).unwrap_or_default());
             }
         }));
